@@ -136,4 +136,9 @@ def pretty(obj: Any) -> str:  # pragma: no cover
                     output.append(f'{m.group(1)} ')
                 break
 
+        # Nothing matched (`-`, `.`, `|` etc.): copy the character so the loop always advances
+        if m is None:
+            output.append(sel[index])
+            index += 1
+
     return ''.join(output)
